@@ -421,7 +421,8 @@ func panicCategory(msg string) string {
 	case strings.Contains(msg, "index out of range"):
 		return "index out of range"
 	case strings.Contains(msg, "slice bounds out of range"):
-		return "slice bounds out of range"
+		// Go leaves the evaluation order of `x, s = s[n-1], s[:n-1]` open: one category for both
+		return "index out of range"
 	case strings.Contains(msg, "nil pointer dereference"), strings.Contains(msg, "nil map"):
 		return "nil dereference"
 	case strings.Contains(msg, "divide by zero"):
